@@ -10,16 +10,17 @@
     By induction over arbitrary histories (`Proofs.Switch.run_erase`).
   * `strict_sound` — the obligation re-checked against the source on every run: which timing
     parameters the strict comparison of the *live* `_switch_device.py` (table
-    `Generated.strictParams`, extracted with `ast`) leaves uncovered.  On the unchanged tree the
-    list is `["min_duration", "phase_jump_time"]` — the known finding F5, exhibited on the model by
-    `strict_phase_jump_counterexample` / `strict_min_duration_counterexample` and on the
-    implementation by the monitor's replays.  `strict_sound_of_complete` +
-    `strict_identical_of_complete`: once the list is `[]` the strict comparison is sound.
+    `Generated.strictParams`, extracted with `ast`) leaves uncovered: none (`[]`) since the repair
+    of F5 (/repo 2c8b93c0), hence `strict_identical`: channels that pass the live strict comparison
+    give identical timelines (`strict_sound_of_complete`, `strict_identical_of_complete`).
+    Before the repair the list was `["min_duration", "phase_jump_time"]` (`strict_sound_old`, over
+    the frozen table `Switch.oldStrictParams`), exhibited on the model by
+    `strict_phase_jump_counterexample` / `strict_min_duration_counterexample`.
   * the remaining `decide` obligations pin the source text the model of
     `PulserModel/Switch.lean` mirrors (guards, `check_retarget`, replayed call list, renamed calls,
     caught exception, sample comparison).
-  * `dmm_rename_counterexample`: the replay renames DMM channels but not the calls that name them
-    (finding F18r).
+  * `dmm_rename_counterexample` / `dmm_rename_values`: the replay renamed DMM channels but not the
+    `delay` / `align` calls naming them (finding F18r) — repaired in /repo, the model follows.
 
   Not proved (monitor / correspondence only): the non-strict clause (limits of the new device), the
   register clause, samples (`sample()` arrays), parametrized sequences.
@@ -68,18 +69,19 @@ theorem accepted_call_ignores_limits (s : SeqState) (op : Op) (h : (stepRaw s op
 
 /-! ### (b) the strict comparison -/
 
-/-- **Which timing parameters the strict comparison of the live code leaves uncovered** — a
-`decide` over the table regenerated from `_switch_device.py` on every run.  Any change of the
-comparison (better or worse) breaks this theorem and triggers the monitor's search.  The pinned
-list is the known finding F5: `phase_jump_time` (`custom_phase_jump_time`) and `min_duration` are
-read by the scheduler but not compared, so `switch_device(strict=True)` can return a different
-timeline.  After the repair the list is `[]`. -/
-theorem strict_sound : strictMissing Generated.strictParams Generated.strictSampleChecks
+/-- **The strict comparison of the live code leaves no timing parameter uncovered** — a `decide`
+over the table regenerated from `_switch_device.py` on every run.  Any change of the comparison
+(better or worse) breaks this theorem and triggers the monitor's search. -/
+theorem strict_sound : strictMissing Generated.strictParams Generated.strictSampleChecks = [] := by decide
+
+/-- Before the repair of F5 (/repo 2c8b93c0): `phase_jump_time` (`custom_phase_jump_time`) and
+`min_duration` are read by the scheduler but were not compared, so `switch_device(strict=True)`
+could return a different timeline. -/
+theorem strict_sound_old : strictMissing oldStrictParams Generated.strictSampleChecks
     = ["min_duration", "phase_jump_time"] := by decide
 
-/-- The proposed repair (adding the two parameters to `params_to_check`) leaves nothing uncovered. -/
-theorem strict_sound_repaired :
-    strictMissing (Generated.strictParams ++ ["min_duration", "phase_jump_time"]) Generated.strictSampleChecks = [] := by
+/-- The repair is exactly the two parameters, compared last. -/
+theorem strict_params_repaired : Generated.strictParams = oldStrictParams ++ ["min_duration", "phase_jump_time"] := by
   decide
 
 /-- **A strict comparison with nothing uncovered is sound**, per channel: a pair of channels that
@@ -109,6 +111,17 @@ theorem strict_identical_of_complete {params samples : List String} (h : strictM
   apply timing_congr_states _ _ _ _ h₁ h₂
   simp only [erase, SeqState.init, eraseDev, map_timing_of_listOk h hc, map_timing_of_listOk h hd]
 
+/-- **Strict ⇒ identical timeline, for the live comparison**: two devices whose channels pass the
+strict comparison extracted from the code (`pairOk Generated.strictParams`: the guards of
+`check_channels_match`, the EOM buffer parameters as seen by the sample comparison) give the same
+timeline for every history accepted on both. -/
+theorem strict_identical (d₁ d₂ : Device) (nQ : Nat) (ops : List Op)
+    (hc : listOk Generated.strictParams d₁.chans d₂.chans = true)
+    (hd : listOk Generated.strictParams d₁.dmms d₂.dmms = true)
+    (h₁ : allOk (SeqState.init d₁ nQ) ops = true) (h₂ : allOk (SeqState.init d₂ nQ) ops = true) :
+    timeline (run (SeqState.init d₁ nQ) ops) = timeline (run (SeqState.init d₂ nQ) ops) :=
+  strict_identical_of_complete strict_sound d₁ d₂ nQ ops hc hd h₁ h₂
+
 /-- `check_channels_match(strict=True)` (statement order of the Python) is the table-driven
 comparison over the parameters it names. -/
 theorem check_channels_match_spec (old new : ChanCfg) (eom : Bool) :
@@ -128,12 +141,13 @@ theorem check_retarget_src : Generated.checkRetargetSrc = checkRetargetSrc := by
 theorem strict_sample_checks : Generated.strictSampleChecks = sampleArrays := by decide
 theorem nonstrict_params : Generated.nonStrictParams = ["type", "basis", "addressing", "eom_config"] := by decide
 theorem renamed_calls : Generated.renamedCalls
-    = ["add_dmm_detuning", "config_detuning_map", "config_slm_mask", "declare_channel"] := by decide
+    = ["add_dmm_detuning", "align", "config_detuning_map", "config_slm_mask", "declare_channel", "delay"] := by
+  decide
 theorem replayed_calls : Generated.replayedCalls = "seq._calls[1:] + seq._to_build_calls" := by decide
 theorem caught_by_replay_loop : Generated.caughtByReplayLoop = ["ValueError"] := by decide
 theorem device_params : Generated.deviceParams = ["interaction_coeff_xy", "rydberg_level"] := by decide
 
-/-! ### F5 on the model: the strict comparison of the live code is not sound -/
+/-! ### F5 on the model: the strict comparison before the repair was not sound -/
 
 def chA : ChanCfg := { clock := 4, minDur := 16, rise := 120, pjt := 240 }
 /-- identical except `custom_phase_jump_time = 0` -/
@@ -150,10 +164,10 @@ def twoPulses (fall : Nat) : List Op :=
    .add { dur := 100, fallStd := fall, ref := 1 } (.user 0) (some .minDelay),
    .add { dur := 100, phase := 1, fallStd := fall, ref := 2 } (.user 0) (some .minDelay)]
 
-/-- **F5** (`phase_jump_time`): the live strict comparison accepts the pair, every call is accepted
+/-- **F5** (`phase_jump_time`): the old strict comparison accepts the pair (the live one refuses it), every call is accepted
 on both devices, and the second pulse starts at 580 on one and at 340 on the other. -/
 theorem strict_phase_jump_counterexample :
-    strictMatch Generated.strictParams false chA chB = true ∧
+    strictMatch oldStrictParams false chA chB = true ∧ strictMatch Generated.strictParams false chA chB = false ∧
     allOk (SeqState.init (devOf chA) 1) (twoPulses 240) = true ∧
     allOk (SeqState.init (devOf chB) 1) (twoPulses 240) = true ∧
     timeline (run (SeqState.init (devOf chA) 1) (twoPulses 240))
@@ -161,7 +175,7 @@ theorem strict_phase_jump_counterexample :
 
 /-- **F5** (`min_duration`): the 48 ns phase-jump buffer becomes a 52 ns delay. -/
 theorem strict_min_duration_counterexample :
-    strictMatch Generated.strictParams false chC chD = true ∧
+    strictMatch oldStrictParams false chC chD = true ∧ strictMatch Generated.strictParams false chC chD = false ∧
     allOk (SeqState.init (devOf chC) 1) (twoPulses 24) = true ∧
     allOk (SeqState.init (devOf chD) 1) (twoPulses 24) = true ∧
     timeline (run (SeqState.init (devOf chC) 1) (twoPulses 24))
@@ -196,21 +210,24 @@ def slotCounts (r : Except SwitchErr SeqState) : Option (List (ChName × Nat)) :
   | .ok s' => some (s'.chans.map fun c => (c.name, c.slots.length))
   | .error _ => none
 
-/-- **F18r**: switching (strict) to a device with the same two DMMs succeeds with the first matching
-tried (`dmm_1 ↦ dmm_0`, `dmm_0 ↦ dmm_1`); the replayed `delay(100, "dmm_0")` now lands on the image
-of the *other* DMM channel: the first declared channel carries the delay in the result, the second
-in the original. -/
+/-- **F18r, before its repair** (`legacy` replay): switching (strict) to a device with the same two
+DMMs succeeded with the first matching tried (`dmm_1 ↦ dmm_0`, `dmm_0 ↦ dmm_1`) and replayed
+`delay(100, "dmm_0")` under the old name, i.e. on the image of the *other* DMM channel. -/
 theorem dmm_rename_counterexample :
     (dmmSeq.chans.map fun c => (c.name, c.slots.length)) = [(.dmm 1 0, 1), (.dmm 0 0, 2)] ∧
-    slotCounts (switchDevice (fun _ _ => true) dmmSeq (twoDmm (some 100000)) true)
+    slotCounts (switchDevice (fun _ _ => true) dmmSeq (twoDmm (some 100000)) true (legacy := true))
       = some [(.dmm 0 0, 2), (.dmm 1 0, 1)] := by decide +kernel
 
-/-- The times of that reproducer (corpus/C18/f18r_dmm_renamed.json, `expect`). -/
+/-- **After the repair** the replayed `delay` follows the renamed channel: the i-th declared channel
+of the result has the instructions of the i-th declared channel of the original
+(corpus/C18/f18r_dmm_renamed.json, `expect`). -/
 theorem dmm_rename_values :
     slotTimes dmmSeq = [[(-1, 0)], [(-1, 0), (0, 100)]] ∧
+    slotCounts (switchDevice (fun _ _ => true) dmmSeq (twoDmm (some 100000)) true)
+      = some [(.dmm 0 0, 1), (.dmm 1 0, 2)] ∧
     (match switchDevice (fun _ _ => true) dmmSeq (twoDmm (some 100000)) true with
      | .ok s' => some (slotTimes s')
-     | .error _ => none) = some [[(-1, 0), (0, 100)], [(-1, 0)]] := by decide +kernel
+     | .error _ => none) = some [[(-1, 0)], [(-1, 0), (0, 100)]] := by decide +kernel
 
 /-! ### switching the register -/
 
@@ -235,11 +252,14 @@ example : devicesAgree (devOf chA) { devOf exLim with maxSeqDur := some 5000, re
 
 /-- `timing_fields_complete` / `strict_sound_of_complete`: the hypotheses are satisfiable. -/
 example : agreeOn (timingFields ++ limitFields) chA chA = true := by decide
-example : strictMissing (Generated.strictParams ++ ["min_duration", "phase_jump_time"])
-    Generated.strictSampleChecks = [] ∧ retargetWF chA = true ∧
-    strictMatch (Generated.strictParams ++ ["min_duration", "phase_jump_time"]) false chA exLim = true := by decide
-example : pairOk (Generated.strictParams ++ ["min_duration", "phase_jump_time"]) chA exLim = true := by decide
-example : checkChannelsMatch chA exLim false true = .ok ∧ checkChannelsMatch chA chD false true = .strict := by decide
+example : retargetWF chA = true ∧ strictMatch Generated.strictParams false chA exLim = true := by decide
+example : pairOk Generated.strictParams chA exLim = true := by decide
+/-- `strict_identical`: a pair of devices that passes the live comparison, a history accepted on both. -/
+example : listOk Generated.strictParams (devOf chA).chans (devOf exLim).chans = true ∧
+    listOk Generated.strictParams (devOf chA).dmms (devOf exLim).dmms = true ∧
+    allOk (SeqState.init (devOf exLim) 1) (twoPulses 240) = true := by decide +kernel
+example : checkChannelsMatch chA exLim false true = .ok ∧ checkChannelsMatch chA chB false true = .strict ∧
+    checkChannelsMatch chC chD false true = .strict := by decide
 /-- an accepted call on a state with limits -/
 example : (stepRaw (SeqState.init (devOf exLim) 1) (.declare (.user 0) 0 none)).err = none := by decide
 
